@@ -505,6 +505,104 @@ def handleFerr (how : String) (depth : Nat) (inner : Option (Nat × Bytes × Byt
         | _ => [("status-in-source-chain-is-found", false)]
   (join model, verdict vd)
 
+/-! ### dimension audit: every API route, call shape, interceptor and transport (`e2x`)
+
+The nine knobs select HOW the same metadata is attached and carried (see harness/src/c08_dim.rs);
+the prediction is the plain `e2e` model's — the knobs must be invisible — except where a knob adds
+an entry of its own (`rq = 5`: `set_timeout`) or selects a path `e2e` does not have (a unary client
+that receives a message and then trailers carrying metadata). -/
+
+def parseKnobs (t : String) : Option (List Nat) :=
+  let ps := t.splitOn "."
+  let ns := ps.filterMap nat?
+  if ns.length == 9 && ps.length == 9 then some ns else none
+
+def GRPC_TIMEOUT : Bytes := HMap.name "grpc-timeout"
+
+def handleE2X (kn : List Nat) (mode : String) (code : Nat) (msg det : Bytes) (req0 resp stmd : List (Enc × Bytes × Bytes))
+    (obs : List String) : String × String :=
+  let v := Variant.fixed
+  let rq := kn.getD 2 0
+  let k := kn.getD 7 0
+  -- `Request::set_timeout` inserts one more entry (the generator keeps the name out of `req`)
+  let req := if rq == 5 then req0 ++ [(Enc.ascii, GRPC_TIMEOUT, Ascii.ofString "3600000m")] else req0
+  if rq == 5 && req0.any (fun e => (e.2.1.map Ascii.toLower).take 12 == GRPC_TIMEOUT) then bad else
+  if !(mode == "umix" && k ≥ 1) then handleE2E mode code msg det req resp stmd obs else
+  let reqmd := buildTyped v req
+  let respmd := buildTyped v resp
+  let st : St := { code := Code.ofNum code, message := msg, details := det, metadata := buildTyped v stmd }
+  let reqwire := requestWire reqmd
+  let srv := typedView v reqwire
+  let h := responseWire respmd
+  let cl : List String := match Status.toHeaderMap v st with
+    | .error e => "err" :: renderSt v e
+    | .ok t => match Status.streamEnd v [t] 200 with
+      -- the message has been taken: `body.trailers().await?` hands the status on as it is
+      | .err s => "err" :: renderSt v s
+      -- OK trailers: merged over the response headers
+      | .finished (some t) => "ok" :: renderRows (typedView v (clientUnaryOkMetadata respmd t))
+      | .finished none => ["unmodelled"]
+      | .panic => ["panic"]
+  let model := ("reqwire" :: HMap.render reqwire) ++ ("srv" :: renderRows srv) ++ ("respwire" :: HMap.render h) ++ ("client" :: cl)
+  let sentReq := nonReserved (specAccepted req)
+  let sentResp := nonReserved (specAccepted resp)
+  let sentSt := nonProtocol (specAccepted stmd)
+  let vd : List (String × Bool) :=
+    match splitOn1 "reqwire" obs with
+    | some (_, r0) =>
+      match splitOn1 "srv" r0 with
+      | some (reqwireT, r1) =>
+        match splitOn1 "respwire" r1 with
+        | some (srvT, r2) =>
+          match splitOn1 "client" r2 with
+          | some (respwireT, clientT) =>
+            match HMap.parseRendered reqwireT, parseRows srvT, HMap.parseRendered respwireT with
+            | some (rw, []), some (srvRows, []), some (pw, []) =>
+              let common :=
+                [("request-reserved-names-only-from-protocol", Spec.Metadata.reservedOnlyFromProtocol rw requestOwn),
+                 ("request-wire-carries-custom-entries", sameRows (nonReserved (specView rw)) sentReq),
+                 ("server-sees-request-metadata", sameRows (nonReserved srvRows) sentReq),
+                 ("response-reserved-names-only-from-protocol", Spec.Metadata.reservedOnlyFromProtocol pw responseOwn),
+                 ("response-wire-carries-custom-entries", sameRows (nonReserved (specView pw)) sentResp)]
+              if code != 0 then
+                match clientT with
+                | "err" :: c :: m :: d :: rows =>
+                  match parseRows rows with
+                  | some (cr, []) =>
+                    common ++ [("client-sees-status", c == toString code && m == hex msg && d == hex det),
+                      ("client-sees-status-metadata", sameRows (nonProtocol cr) sentSt)]
+                  | _ => [("observed-parses", false)]
+                | _ => common ++ [("failed-call-fails", false)]
+              else
+                match clientT with
+                | "ok" :: rows =>
+                  match parseRows rows with
+                  | some (cr, []) =>
+                    -- ONE map for response headers and trailers.  Every entry of both must be there; the
+                    -- clause is evaluated in parts so that finding C08-F3 (a response-header entry whose
+                    -- name also occurs in the trailers is replaced by the trailers' values) is told apart
+                    -- from any other loss.
+                    let stNames := sentSt.map (fun r => r.2.1)
+                    let respNames := (nonProtocol sentResp).map (fun r => r.2.1)
+                    let got := nonProtocol cr
+                    let both (rows : List Row) := rows.filter (fun r => stNames.contains r.2.1 && respNames.contains r.2.1)
+                    let onlyResp (rows : List Row) := rows.filter (fun r => !stNames.contains r.2.1)
+                    let onlySt (rows : List Row) := rows.filter (fun r => !respNames.contains r.2.1)
+                    common ++ [("client-sees-response-metadata", sameRows (onlyResp got) (onlyResp (nonProtocol sentResp))),
+                      ("client-sees-trailer-metadata", sameRows (onlySt got) (onlySt sentSt)),
+                      ("client-sees-trailer-metadata-under-names-also-in-response-headers",
+                        (both sentSt).all (fun r => (both got).contains r)),
+                      ("client-sees-response-metadata-under-names-also-in-trailers",
+                        sameRows (both got) (both (nonProtocol sentResp) ++ both sentSt))]
+                  | _ => [("observed-parses", false)]
+                | _ => common ++ [("successful-call-succeeds", false)]
+            | _, _, _ => [("observed-parses", false)]
+          | none => [("observed-parses", false)]
+        | none => [("observed-parses", false)]
+      | none => [("observed-parses", false)]
+    | none => [("observed-parses", false)]
+  (join model, verdict vd)
+
 def handle (case obs : List String) : String × String :=
   let v := Variant.fixed
   match case with
@@ -692,6 +790,17 @@ def handle (case obs : List String) : String × String :=
     match nat? depth, nat? c, unhex m, unhex d, parseTyped rest with
     | some depth, some c, some m, some d, some (stmd, []) =>
       if c ≤ 16 && ["from", "try", "recover"].contains how then handleFerr how depth (some (c, m, d, stmd)) obs else bad
+    | _, _, _, _, _ => bad
+  | "e2x" :: kn :: mode :: c :: m :: d :: rest =>
+    match parseKnobs kn, nat? c, unhex m, unhex d, parseTyped rest with
+    | some kn, some c, some m, some d, some (req, r1) =>
+      match parseTyped r1 with
+      | some (resp, r2) =>
+        match parseTyped r2 with
+        | some (stmd, []) =>
+          if c ≤ 16 && ["ok", "err", "sserr", "umix"].contains mode then handleE2X kn mode c m d req resp stmd obs else bad
+        | _ => bad
+      | none => bad
     | _, _, _, _, _ => bad
   | "e2e" :: mode :: c :: m :: d :: rest =>
     match nat? c, unhex m, unhex d, parseTyped rest with
